@@ -189,7 +189,9 @@ def _worker(args):
     return out
 
 
-def run_many(base: Path, jobs: list[dict], timeout: int = 30, workers: int = 14) -> list[dict]:
+def run_many(base: Path, jobs: list[dict], timeout: int = 30, workers: int = 14, fresh_process: bool = False) -> list[dict]:
+    """results in the order of `jobs`. The jobs are handed out one by one (multi-step jobs first) to a pool of forked worker processes;
+    a process runs many jobs one after the other, each in a directory of its own — `fresh_process`: one job per process"""
     import multiprocessing as mp
     if not jobs:
         return []
@@ -197,11 +199,10 @@ def run_many(base: Path, jobs: list[dict], timeout: int = 30, workers: int = 14)
     from pydjinni import API
     API()
     workers = max(1, min(workers, len(jobs)))
-    chunks = [jobs[i::workers] for i in range(workers)]
-    with mp.get_context("fork").Pool(workers) as pool:
-        res = pool.map(_worker, [(str(base), i, ch, timeout) for i, ch in enumerate(chunks)])
+    order = sorted(range(len(jobs)), key=lambda i: -len(jobs[i].get("steps", ())))
+    with mp.get_context("fork").Pool(workers, maxtasksperchild=1 if fresh_process else None) as pool:
+        res = pool.map(_worker, [(str(base), i, [jobs[i]], timeout) for i in order], chunksize=1)
     out = [None] * len(jobs)
-    for w, r in enumerate(res):
-        for j, x in enumerate(r):
-            out[w + j * workers] = x
+    for i, r in zip(order, res):
+        out[i] = r[0]
     return out
